@@ -312,6 +312,7 @@ func runC19(c *Check) {
 	}
 	// ---- R7: AEAD preconditions. cipher.AEAD.Open / Seal panic on a nonce whose length is not
 	// NonceSize(); a nonce read from the key file is attacker / corruption controlled.
+	c.Doc("C19-R12", "VP: every AEAD Seal/Open in the key-file code writes its output to nil or a freshly made buffer, never into storage that other values may alias (export followed by import preserves the key whatever the capacity of the caller's slice).")
 	c.Doc("C19-R7", "GA: every AEAD Open/Seal in the key-file code gets a nonce that was allocated with NonceSize() or whose length was tested against NonceSize() on every path (the library panics otherwise: a truncated key file must fail cleanly).")
 	{
 		nAead := 0
@@ -336,6 +337,31 @@ func runC19(c *Check) {
 						c.NoteGraph(g)
 					}
 					nAead++
+					// the destination: nil or a buffer of the call's own — sealing or opening in
+					// place overwrites memory other values may be views of (the raw public key of a
+					// libp2p key is a view of the raw private key bytes)
+					{
+						dst := call.Common().Args[0]
+						dt := TermOf(dst, &Ctx{Fn: fn})
+						own := false
+						if k, isK := dst.(*ssa.Const); isK && k.Value == nil {
+							own = true
+						}
+						if _, isMk := dst.(*ssa.MakeSlice); isMk {
+							own = true
+						}
+						if sl, isSl := dst.(*ssa.Slice); isSl {
+							if _, isMk := sl.X.(*ssa.MakeSlice); isMk {
+								own = true
+							}
+						}
+						dinst := fnShort(fn) + " ⟂ " + cn[strings.LastIndex(cn, ".")+1:] + " destination"
+						if own {
+							c.OK("C19-R12", dinst, fnName(fn), p.InstrPos(in), "the output goes to a buffer of its own (nil or freshly made)", true)
+						} else {
+							c.Bad("C19-R12", dinst, fnName(fn), p.InstrPos(in), "the AEAD output is written into existing storage ("+trunc(dt.String(), 60)+"): when that storage has room, the plaintext key bytes are overwritten while other values still view them — the public key written to the file is then ciphertext, the call succeeds and the file can never be loaded", nil)
+						}
+					}
 					nonce := TermOf(call.Common().Args[1], &Ctx{Fn: fn})
 					inst := fnShort(fn) + " ⟂ " + cn[strings.LastIndex(cn, ".")+1:] + " nonce " + trunc(nonce.String(), 40)
 					fresh := nonce.Op == "make" || strings.HasPrefix(nonce.String(), "make(")
@@ -705,6 +731,11 @@ func ruleKeyFileIndexing(c *Check, p *Prog, rule string) {
 				ord[fnName(fn)+kind+bt.String()]++
 				inst := fmt.Sprintf("%s ⟂ %s %s #%d", fnShort(fn), kind, trunc(bt.String(), 40), ord[fnName(fn)+kind+bt.String()])
 				pos := p.InstrPos(in)
+				// x[:0] and x[0:] are in range for every x
+				if k, ok := intConst(idx); ok && k == 0 && kind != "index" {
+					c.OK(rule, inst, fnName(fn), pos, "a slice bound of 0 is in range for every length", false)
+					continue
+				}
 				// constant-length operand and constant index
 				if l, ok := constLen(base); ok {
 					if k, ok := intConst(idx); ok && (k < l || (kind != "index" && k <= l)) {
